@@ -36,7 +36,7 @@ def run(job):
 
 
 os.environ['VERIF_KEEP_LEAN_COPIES'] = '1'      # concurrent seed checks share private Lean copies: removed once, at the end
-with ThreadPoolExecutor(3) as ex:
+with ThreadPoolExecutor(int(os.environ.get("SEED_MATRIX_JOBS", "3"))) as ex:
     for s, res in ex.map(run, jobs):
         print(s, res, flush=True)
 import shutil
